@@ -1,12 +1,18 @@
 // Kani harnesses for crates/erbium-core/src/http.rs (C20: the lease listing is valid JSON whatever bytes a client puts in
 // its host name).  The listing is produced by format! inside the async serve_leases; the per-lease host-name fragment
 // is rendered by the closure `.map(|h| format!(...))`, whose text is lifted verbatim by lib/lift.py.
+#[cfg(any(kani, isomer_erbium_mir))]
+pub mod lifted {
+    #![allow(dead_code, unused_imports)]
+    use super::super::*;
+    include!(concat!(env!("VERIF_GEN_DIR"), "/hostname_fragment.rs"));
+}
+
 #[cfg(kani)]
 mod k {
     #[allow(unused_imports)]
     use super::super::*;
-
-    include!(concat!(env!("VERIF_GEN_DIR"), "/hostname_fragment.rs"));
+    use super::lifted::*;
 
     // RFC 8259 section 7: after `, "host-name": ` comes a string: '"' (unescaped-char | escape)* '"' where an unescaped char
     // is any code point except '"', '\\' and controls < 0x20, and an escape is \" \\ \/ \b \f \n \r \t or \uXXXX.
@@ -53,7 +59,7 @@ mod k {
 
     const PREFIX: &[u8] = b", \"host-name\": ";
 
-    /// VERIF: {"p":"C20","tier":"experimental","fns":["http::serve_leases (host-name fragment closure lifted from source)"],"bounds":"host names of exactly one ASCII character (all 128 values)","oracle":"the fragment is `, \"host-name\": ` followed by a JSON string (RFC 8259 section 7: no raw control characters, only the JSON escapes)","stubs":["closure body lifted verbatim from serve_leases"],"covers":2,"unwind":16}
+    /// VERIF: {"p":"C20","tier":"experimental","fns":["http::json_string","http::serve_leases (host-name fragment closure lifted from source)"],"bounds":"host names of exactly one ASCII character (all 128 values)","oracle":"the fragment is `, \"host-name\": ` followed by a JSON string (RFC 8259 section 7: no raw control characters, only the JSON escapes)","stubs":["closure body lifted verbatim from serve_leases"],"covers":2,"unwind":16}
     #[kani::proof]
     #[kani::unwind(16)]
     fn c20_hostname_fragment_is_json_one_ascii_char() {
